@@ -12,6 +12,7 @@ Only then is the change copied to /verif/seeded/<id>/ (patch.diff, demo, meta.js
 """
 import json, os, re, shutil, subprocess, sys, tempfile
 
+FLAGS = os.environ.get("MUT_TEST_FLAGS", "")
 ENV = dict(os.environ, GOFLAGS="-mod=readonly", GOPROXY="off", GOSUMDB="off", GOTOOLCHAIN="local")
 
 
@@ -42,7 +43,7 @@ def main():
         ran.append("clean tree: go test -vet=off -count=1 ./... -> failing: %s" % base_fail)
         shutil.copy(demo, os.path.join(wt, demo_path))
         pkg = "./" + os.path.dirname(demo_path)
-        rc_clean, out_clean = sh("go test -vet=off -count=1 %s 2>&1" % pkg, wt)
+        rc_clean, out_clean = sh("go test -vet=off -count=1 %s %s 2>&1" % (FLAGS, pkg), wt)
         demo_clean_fail = [f for f in failing(out_clean) if f not in base_fail]
         ran.append("clean tree + demo: go test %s -> new failures: %s" % (pkg, demo_clean_fail))
         os.remove(os.path.join(wt, demo_path))
@@ -57,9 +58,9 @@ def main():
         mut_fail = failing(mut)
         ran.append("mutant: go build ./... ok; go test -vet=off -count=1 ./... -> failing: %s" % mut_fail)
         shutil.copy(demo, os.path.join(wt, demo_path))
-        rc_mut, out_mut = sh("go test -vet=off -count=1 %s 2>&1" % pkg, wt)
+        rc_mut, out_mut = sh("go test -vet=off -count=1 %s %s 2>&1" % (FLAGS, pkg), wt)
         demo_mut_fail = [f for f in failing(out_mut) if f not in base_fail]
-        if rc_mut != 0 and not demo_mut_fail and "panic:" in out_mut:
+        if rc_mut != 0 and not demo_mut_fail and ("panic:" in out_mut or "DATA RACE" in out_mut or "fatal error:" in out_mut):
             demo_mut_fail = ["panic"]
         ran.append("mutant + demo: go test %s -> new failures: %s" % (pkg, demo_mut_fail))
         ok = (mut_fail == base_fail) and not demo_clean_fail and bool(demo_mut_fail)
@@ -82,7 +83,7 @@ def main():
             "needs_to_manifest": meta.get("needs_to_manifest"),
             "files_changed": meta.get("files_changed"),
             "demo_path": demo_path,
-            "demo_cmd": "go test -vet=off -count=1 %s" % pkg,
+            "demo_cmd": "go test -vet=off -count=1 %s %s" % (FLAGS, pkg),
             "repo_head_when_confirmed": head,
             "confirmed_by_me": ran,
             "author_ran": meta.get("ran"),
